@@ -78,27 +78,41 @@ func c09Build(in c09Input, mode string) (v *vrRouter, ok bool) {
 	return v, true
 }
 
-func c09Check(in c09Input) (string, bool) {
+type c09Trio struct{ con, without, un *vrRouter }
+
+func c09Trios(in c09Input) (*c09Trio, bool) {
 	con, ok1 := c09Build(in, "constrained")
 	without, ok2 := c09Build(in, "without")
 	un, ok3 := c09Build(in, "unconstrained")
 	if !ok1 || !ok2 || !ok3 {
-		return "", true
+		return nil, false
 	}
+	return &c09Trio{con, without, un}, true
+}
+
+func (t *c09Trio) check(in c09Input) string {
 	h := c09Headers[in.Header%len(c09Headers)]
 	hist := c09Histories[in.History%len(c09Histories)]
-	got := con.serve(in.Method, in.Path, h)
+	got := t.con.serve(in.Method, in.Path, h)
 	var want vrOutcome
 	which := ""
 	if c09Holds(hist[len(hist)-1], h) {
-		want, which = un.serve(in.Method, in.Path, h), "the constraints hold: same as the unconstrained route"
+		want, which = t.un.serve(in.Method, in.Path, h), "the constraints hold: same as the unconstrained route"
 	} else {
-		want, which = without.serve(in.Method, in.Path, h), "the constraints fail: the route must be invisible"
+		want, which = t.without.serve(in.Method, in.Path, h), "the constraints fail: the route must be invisible"
 	}
 	if !vrSameChoice(got, want) {
-		return fmt.Sprintf("route %q constrained by %v, request %s %q with %v: got %v, want %v (%s)", in.Target, hist, in.Method, in.Path, h, got, want, which), false
+		return fmt.Sprintf("route %q constrained by %v, request %s %q with %v: got %v, want %v (%s)", in.Target, hist, in.Method, in.Path, h, got, want, which)
 	}
-	return "", false
+	return ""
+}
+
+func c09Check(in c09Input) (string, bool) {
+	t, ok := c09Trios(in)
+	if !ok {
+		return "", true
+	}
+	return t.check(in), false
 }
 
 func TestVerifReplayC09(t *testing.T) {
@@ -118,6 +132,10 @@ search:
 		for o := range c09Others {
 			for _, any := range []bool{false, true} {
 				for hi := range c09Histories {
+					trio, ok := c09Trios(c09Input{Target: target, Others: o, Any: any, History: hi})
+					if !ok {
+						continue
+					}
 					for _, m := range []string{"GET", "POST"} {
 						if m == "POST" && !any {
 							continue
@@ -125,12 +143,8 @@ search:
 						for _, p := range c09Paths {
 							for h := range c09Headers {
 								in := c09Input{Target: target, Others: o, Any: any, History: hi, Method: m, Path: p, Header: h}
-								what, skipped := c09Check(in)
-								if skipped {
-									continue
-								}
 								count++
-								if what != "" {
+								if what := trio.check(in); what != "" {
 									b, _ := json.Marshal(in)
 									fmt.Printf("REPLAY-FAIL %s\n", b)
 									fmt.Printf("REPLAY-WHAT %s\n", what)
